@@ -361,6 +361,23 @@ def scen_order(flavour, n_nodes, max_edges, methods, kinds=('pre', 'post'), mode
                             yield (flavour, 'order-' + kind, mode, method), with_step(b, 'order', spec, {'seq': seq})
 
 
+def single_reject(items):
+    """variants of unfiltered items in which a pure filter rejects exactly one edge of the graph (no branching:
+    scales to larger graphs than the fully free filter)"""
+    for cell, scen in items:
+        seq = scen['meta']['seq']
+        for j, (u, v) in enumerate(seq):
+            s2 = dict(scen)
+            steps = list(scen['steps'])
+            kind, spec = steps[-1]
+            sp = dict(spec)
+            sp['method'] = 'filter'
+            sp['filter'] = {'table': [[u, v, {'s': f'e{j}'}, False]], 'default': True}
+            steps[-1] = [kind, sp]
+            s2['steps'] = steps
+            yield (cell[0], cell[1], cell[2], 'filter-one'), s2
+
+
 def items_for(prop, tier):
     n = 3
     m = 3 if tier == 'quick' else 4
@@ -402,12 +419,14 @@ def items_for(prop, tier):
             items += scen_order(fl, 4, 4, ('none',), modes=('nodes',), shapes=simple_sequences(4, 4) if tier == 'quick' else None)
     if tier == 'thorough' and prop in ('C04', 'C05', 'C09', 'C10'):
         s55 = simple_sequences(5, 5)
-        s45f = simple_sequences(4, 5)
+        s45f = simple_sequences(4, 4)
         for fl in FLAVOURS:
             if prop == 'C04':
                 items += scen_target(fl, 'bfs', 4, 4, ('none',), modes=('path',))
                 items += scen_target(fl, 'bfs', 5, 5, ('none',), modes=('path',), shapes=s55)
                 items += scen_target(fl, 'bfs', 4, 5, ('filter',), modes=('path',), shapes=s45f)
+                if fl in DIRECTED:
+                    items += single_reject(scen_target(fl, 'bfs', 4, 5, ('none',), modes=('path',), shapes=[q for q in simple_sequences(4, 5) if len(q) == 5]))
             elif prop == 'C05':
                 items += scen_target(fl, 'dfs', 4, 4, ('none',), modes=('path',))
                 items += scen_target(fl, 'dfs', 5, 5, ('none',), modes=('path',), shapes=s55)
@@ -416,7 +435,9 @@ def items_for(prop, tier):
                     items += scen_cycle(fl, alg, 4, 4, ('none',))
                 items += scen_cycle(fl, 'bfs', 5, 5, ('none',), shapes=s55)
                 if fl in DIRECTED:
-                    items += scen_cycle(fl, 'bfs', 4, 6, ('filter',), shapes=simple_sequences(4, 6))
+                    items += scen_cycle(fl, 'bfs', 4, 5, ('filter',), shapes=simple_sequences(4, 5))
+                    for alg in ('bfs', 'dfs'):
+                        items += single_reject(scen_cycle(fl, alg, 4, 6, ('none',), shapes=[q for q in simple_sequences(4, 6) if len(q) >= 5]))
             elif prop == 'C10':
                 items += scen_order(fl, 5, 5, ('none',), modes=('nodes',), shapes=s55)
     return items
@@ -443,7 +464,7 @@ def run(prop, tier, seed):
     return scenario_check(
         prop, tier, seed, items, evaluate, sig_of,
         bounds={'nodes': 3, 'max_edges_unfiltered': 3 if tier == 'quick' else 4, 'max_edges_filtered': 3,
-                'extra_families': ('C10: 4 nodes / <=4 edges unfiltered node orders (quick: simple digraphs only); ' if prop == 'C10' else '') + ('thorough: 4 nodes <=4 edges unfiltered; 5 nodes <=5 edges simple digraphs unfiltered; bfs with filter on simple 4-node graphs (<=5 edges paths, <=6 edges cycles, directed)' if tier == 'thorough' else ''),
+                'extra_families': ('C10: 4 nodes / <=4 edges unfiltered node orders (quick: simple digraphs only); ' if prop == 'C10' else '') + ('thorough: 4 nodes <=4 edges unfiltered; 5 nodes <=5 edges simple digraphs unfiltered; bfs with free filter on simple 4-node graphs (<=4 edges paths, <=5 edges cycles, directed); single-rejected-edge filters on simple 4-node graphs with 5 (paths) and 5-6 (cycles) edges, directed' if tier == 'thorough' else ''),
                 'symbolic': 'edge values, node values (pfs), filter = uninterpreted F(u,v,e) split on every examined edge',
                 'outside': 'larger graphs; impure filters; node values changing during a search'},
         assumptions=['std models of engine A incl. AHashSet (association list), VecDeque, BinaryHeap (std sift-up / sift-down-to-bottom), validated differentially on every run',
